@@ -2,6 +2,7 @@ import J5V.Props.C06
 #print axioms J5V.Props.C06.C06_decode_no_panic
 #print axioms J5V.Props.C06.C06_decode_tree_no_panic
 #print axioms J5V.Props.C06.C06_query_no_panic
+#print axioms J5V.Props.C06.C06_tokenize_fuel_ok
 #print axioms J5V.Props.C06.C06_scalar_no_panic
 #print axioms J5V.Props.C06.C06_oneof_post_no_panic
 #print axioms J5V.Props.C06.C06_itemsOk_needed
